@@ -24,6 +24,10 @@ run_directed = directed.run
 
 
 def cases(tier, rng):
+    for c in directed.post_init_inherits_cases():
+        yield "directed-post-init-inherits", c
+    for c in directed.abstract_redeclaration_cases():
+        yield "directed-abstract-redeclaration", c
     for c in directed.member_attached_later_cases():
         yield "directed-member-attached-later", c
     thorough = tier == "thorough"
